@@ -25,6 +25,7 @@ Arguments buf {V}. Arguments cap {V}. Arguments closed {V}.
 Section Relay.
   Variables B M FS : Type.
   Variable fstep : FS -> B -> FS * list M.
+  Variable sync : nat -> bool.    (* channel ch is unbuffered: a send completes only when the value has been taken *)
 
   (* messages completed by feeding bytes to the framer, and its state afterwards *)
   Fixpoint frun (s : FS) (bs : list B) : list M * FS :=
@@ -40,24 +41,28 @@ Section Relay.
   | CL (cur : list B) (chunk : list B) (rest : list (list B))   (* bytes of the current chunk still to push *)
   | CLDone
   | PRecv (s : FS) | PSend (s : FS) (m : M) (r : list M) | PDead
-  | QRecv | QRec (m : M) | QDead.
+  | QRecv | QRec (m : M) | QDead
+  | Aw (ch : nat) (next : st).
 
   Definition p_after (s : FS) (ms : list M) : st := match ms with [] => PRecv s | m :: r => PSend s m r end.
+
+  Definition aw (ch : nat) (next : st) : st := if sync ch then Aw ch next else next.
 
   Definition prog (x : st) : op st val ev :=
     match x with
     | CL [] chunk r => OEmit _ _ _ (EvW chunk) (match r with [] => CLDone | c :: r' => CL c c r' end)
-    | CL (b :: cur) chunk r => OSend _ _ _ 0 (VB b) (CL cur chunk r)
+    | CL (b :: cur) chunk r => OSend _ _ _ 0 (VB b) (aw 0 (CL cur chunk r))
     | CLDone => OHalt _ _ _
     | PRecv s => ORecv _ _ _ 0 (fun o => match o with
                                          | Some (VB b) => p_after (fst (fstep s b)) (snd (fstep s b))
                                          | _ => PDead
                                          end)
-    | PSend s m r => OSend _ _ _ 1 (VM m) (p_after s r)
+    | PSend s m r => OSend _ _ _ 1 (VM m) (aw 1 (p_after s r))
     | PDead => OHalt _ _ _
     | QRecv => ORecv _ _ _ 1 (fun o => match o with Some (VM m) => QRec m | _ => QDead end)
     | QRec m => OEmit _ _ _ (EvQ m) QRecv
     | QDead => OHalt _ _ _
+    | Aw ch next => OAwait _ _ _ ch next
     end.
 
   Definition sender (ch : nat) : nat := match ch with 0 => 0 | _ => 1 end.
@@ -86,6 +91,21 @@ Section Relay.
   Lemma step1 a p b : pstep a p = Some b -> steps 1 a b.
   Proof. intros H. econstructor; [exists p; exact H|constructor]. Qed.
 
+  Lemma settle0 next p q c1 w qo cp :
+    exists n, steps n (mk (aw 0 next) p q {| buf := []; cap := cp; closed := false |} c1 w qo)
+                      (mk next p q {| buf := []; cap := cp; closed := false |} c1 w qo).
+  Proof.
+    unfold aw. destruct (sync 0); [|exists 0; constructor].
+    exists 1. apply (step1 _ 0). unfold Net.pstep, mk. cbn. reflexivity.
+  Qed.
+  Lemma settle1 cl next q c0 w qo cp :
+    exists n, steps n (mk cl (aw 1 next) q c0 {| buf := []; cap := cp; closed := false |} w qo)
+                      (mk cl next q c0 {| buf := []; cap := cp; closed := false |} w qo).
+  Proof.
+    unfold aw. destruct (sync 1); [|exists 0; constructor].
+    exists 1. apply (step1 _ 1). unfold Net.pstep, mk. cbn. reflexivity.
+  Qed.
+
   (* the parser hands the messages ms to the queue updater *)
   Lemma hand_over cl s cap1 c0 w : forall ms qo, 1 <= cap1 ->
     exists n, steps n (mk cl (p_after s ms) QRecv c0 (ech cap1) w qo)
@@ -94,18 +114,20 @@ Section Relay.
     induction ms as [|m ms IH]; intros qo H1.
     - exists 0. cbn [map]. rewrite app_nil_r. constructor.
     - destruct (IH (qo ++ [EvQ m]) H1) as [n Hn].
-      exists (1 + (1 + (1 + n))).
       assert (S1 : pstep (mk cl (p_after s (m :: ms)) QRecv c0 (ech cap1) w qo) 1 =
-                   Some (mk cl (p_after s ms) QRecv c0 {| buf := [VM m]; cap := cap1; closed := false |} w qo)).
-      { unfold Net.pstep, mk. cbn -[Nat.ltb]. replace (0 <? cap1) with true by (symmetry; apply Nat.ltb_lt; lia). reflexivity. }
-      assert (S2 : pstep (mk cl (p_after s ms) QRecv c0 {| buf := [VM m]; cap := cap1; closed := false |} w qo) 2 =
-                   Some (mk cl (p_after s ms) (QRec m) c0 (ech cap1) w qo)).
-      { unfold Net.pstep, mk. cbn. reflexivity. }
+                   Some (mk cl (aw 1 (p_after s ms)) QRecv c0 {| buf := [VM m]; cap := cap1; closed := false |} w qo)).
+      { unfold Net.pstep, mk. cbn -[Nat.ltb aw]. replace (0 <? cap1) with true by (symmetry; apply Nat.ltb_lt; lia). reflexivity. }
+      assert (S2 : pstep (mk cl (aw 1 (p_after s ms)) QRecv c0 {| buf := [VM m]; cap := cap1; closed := false |} w qo) 2 =
+                   Some (mk cl (aw 1 (p_after s ms)) (QRec m) c0 (ech cap1) w qo)).
+      { unfold Net.pstep, mk. cbn -[aw]. reflexivity. }
+      destruct (settle1 cl (p_after s ms) (QRec m) c0 w qo cap1) as [n1 Hn1].
       assert (S3 : pstep (mk cl (p_after s ms) (QRec m) c0 (ech cap1) w qo) 2 =
                    Some (mk cl (p_after s ms) QRecv c0 (ech cap1) w (qo ++ [EvQ m]))).
       { unfold Net.pstep, mk. cbn. reflexivity. }
+      exists (1 + (1 + (n1 + (1 + n)))).
       eapply steps_trans; [exact (step1 _ _ _ S1)|].
       eapply steps_trans; [exact (step1 _ _ _ S2)|].
+      eapply steps_trans; [exact Hn1|].
       eapply steps_trans; [exact (step1 _ _ _ S3)|].
       cbn [map]. replace (qo ++ EvQ m :: map EvQ ms) with ((qo ++ [EvQ m]) ++ map EvQ ms) by (rewrite <- app_assoc; reflexivity).
       exact Hn.
@@ -122,15 +144,17 @@ Section Relay.
     - cbn [frun]. destruct (frun (fst (fstep s b)) cur) as [ms s'] eqn:E. cbn [fst snd].
       destruct (hand_over (CL cur chunk rest) (fst (fstep s b)) cap1 (ech cap0) w (snd (fstep s b)) qo H1) as [n1 Hn1].
       destruct (IH (fst (fstep s b)) (qo ++ map EvQ (snd (fstep s b))) H0 H1) as [n2 Hn2]. rewrite E in Hn2. cbn [fst snd] in Hn2.
-      exists (1 + (1 + (n1 + n2))).
       assert (S1 : pstep (mk (CL (b :: cur) chunk rest) (PRecv s) QRecv (ech cap0) (ech cap1) w qo) 0 =
-                   Some (mk (CL cur chunk rest) (PRecv s) QRecv {| buf := [VB b]; cap := cap0; closed := false |} (ech cap1) w qo)).
-      { unfold Net.pstep, mk. cbn -[Nat.ltb]. replace (0 <? cap0) with true by (symmetry; apply Nat.ltb_lt; lia). reflexivity. }
-      assert (S2 : pstep (mk (CL cur chunk rest) (PRecv s) QRecv {| buf := [VB b]; cap := cap0; closed := false |} (ech cap1) w qo) 1 =
-                   Some (mk (CL cur chunk rest) (p_after (fst (fstep s b)) (snd (fstep s b))) QRecv (ech cap0) (ech cap1) w qo)).
-      { unfold Net.pstep, mk. cbn. reflexivity. }
+                   Some (mk (aw 0 (CL cur chunk rest)) (PRecv s) QRecv {| buf := [VB b]; cap := cap0; closed := false |} (ech cap1) w qo)).
+      { unfold Net.pstep, mk. cbn -[Nat.ltb aw]. replace (0 <? cap0) with true by (symmetry; apply Nat.ltb_lt; lia). reflexivity. }
+      assert (S2 : pstep (mk (aw 0 (CL cur chunk rest)) (PRecv s) QRecv {| buf := [VB b]; cap := cap0; closed := false |} (ech cap1) w qo) 1 =
+                   Some (mk (aw 0 (CL cur chunk rest)) (p_after (fst (fstep s b)) (snd (fstep s b))) QRecv (ech cap0) (ech cap1) w qo)).
+      { unfold Net.pstep, mk. cbn -[aw]. reflexivity. }
+      destruct (settle0 (CL cur chunk rest) (p_after (fst (fstep s b)) (snd (fstep s b))) QRecv (ech cap1) w qo cap0) as [n0 Hn0].
+      exists (1 + (1 + (n0 + (n1 + n2)))).
       eapply steps_trans; [exact (step1 _ _ _ S1)|].
       eapply steps_trans; [exact (step1 _ _ _ S2)|].
+      eapply steps_trans; [exact Hn0|].
       eapply steps_trans; [exact Hn1|].
       rewrite map_app, app_assoc. exact Hn2.
   Qed.
